@@ -39,7 +39,17 @@ def _make(conv, shape, holes, skew, mesh_opts=None):
     if conv == 'ugrid':
         mo = dict(mesh_opts or {})
         spelled = mo.pop('conventions', None)
+        second = mo.pop('second_mesh', False)
         ds = builders.ugrid(shape, with_edges=True, **mo)
+        if second:
+            # a second, coarser mesh described after the first one in the same file
+            ds = ds.assign(
+                coarse_node_x=(('ncoarse',), numpy.array([0.0, 6.0, 0.0])), coarse_node_y=(('ncoarse',), numpy.array([0.0, 0.0, 6.0])),
+                coarse_face_node=(('ncoarseface', 'Three'), numpy.array([[0, 1, 2]], dtype='int32'), {'cf_role': 'face_node_connectivity', 'start_index': 0}),
+                coarse=((), numpy.int32(0), {'cf_role': 'mesh_topology', 'topology_dimension': 2, 'node_coordinates': 'coarse_node_x coarse_node_y',
+                                            'face_node_connectivity': 'coarse_face_node'}))
+        if mo_second := (mesh_opts or {}).get('second_mesh'):
+            pass
         if spelled:
             # the file lists several conventions (CF allows blanks or commas between the names); the convention is
             # the one the library detects by itself
@@ -291,6 +301,9 @@ def cases(tier):
         yield Case(f'ugrid:tqp:conventions{k}:get_index_for_point', body,
                    dict(conv='ugrid', shape='tqp', holes=(), skew=False, via='get_index_for_point', mesh_opts=dict(conventions=spelled)),
                    max_paths=20000, split=16, patches=PATCHES)
+    yield Case('ugrid:tqp:second-mesh:get_index_for_point', body,
+               dict(conv='ugrid', shape='tqp', holes=(), skew=False, via='get_index_for_point', mesh_opts=dict(second_mesh=True)),
+               max_paths=20000, split=16, patches=PATCHES)
     # one-based connectivity stored without a fill value (integer arrays straight from the file)
     for mesh in (['fan'] if q else ['fan', 'tri', 'strip5']):
         for mo in (dict(start_index=1, fill='none'), dict(start_index=1, fill='none', transposed=True)):
